@@ -109,6 +109,8 @@ type conn41 struct {
 	hi   []core.IDbms // the same sessions through the real client API
 	// model of the server's per-connection authentication state
 	authed     bool
+	restricted bool   // opened while the database had users: must authenticate
+	late       bool   // ... and after users appeared during this history (an earlier connection was accepted without)
 	nonce      string // latest nonce issued to this connection, "" = none/consumed
 	prevNonces []string
 	logBytes   int // bytes counted by the server's per-connection log limit
@@ -119,8 +121,13 @@ type env41 struct {
 	rec    *ev.Rec
 	srv    *server
 	th     *core.Thread
-	users  []user41
-	frag   frag
+	users  []user41 // model of the rows of the users table
+	// usersTable: the users table exists
+	usersTable bool
+	// usersAppeared: the database went from no users to users while a
+	// connection accepted earlier was open
+	usersAppeared bool
+	frag          frag
 	A      *conn41 // authenticated party
 	authed []*conn41
 	U      []*conn41 // unauthenticated connections
@@ -164,21 +171,160 @@ func (e *env41) known(key string) bool {
 	return false
 }
 
+// haveUsers is the model of "the database has users" (what the server asks
+// of the database when it accepts a connection).
+func (e *env41) haveUsers() bool { return e.usersTable && len(e.users) > 0 }
+
+// newConn opens a connection now. The property's rule: opened while the
+// database has users it is restricted until it authenticates; opened while
+// there are none it is not restricted (newServerConn takes that decision once,
+// when it accepts the connection).
 func (e *env41) newConn() *conn41 {
 	c := e.srv.connect(e.frag)
-	cn := &conn41{c: c}
+	cn := &conn41{c: c, restricted: e.haveUsers()}
+	cn.late = cn.restricted && e.usersAppeared
 	e.all = append(e.all, cn)
 	cn.addSession()
+	// the server decides after its side of the handshake: a first answered
+	// request (allowed in either mode) means the decision has been taken
+	// before the history goes on
+	if _, errstr := rawRequest(c, cn.sess[0], commands.Libraries, nil, false); errstr != "" {
+		e.fail("new connection: Libraries: %s", errstr)
+	}
+	e.rec.LabelIf(cn.restricted, "conn_opened_while_users")
+	e.rec.LabelIf(!cn.restricted, "conn_opened_while_no_users")
+	e.rec.LabelIf(cn.late, "conn_opened_after_users_appeared")
 	return cn
 }
 
-// unauth returns unauthenticated connection ui, connecting anew if the
-// previous one authenticated or was closed by the server.
+// unauth returns the connection of slot ui that has not authenticated,
+// opening one if the slot is empty. A connection whose mode no longer matches
+// the database (opened without users and users exist now: the property does
+// not restrict it; opened with users and they are gone: the property says
+// nothing) is set aside, still open, and a new connection is opened now.
 func (e *env41) unauth(ui int) *conn41 {
+	if cn := e.U[ui]; cn != nil && cn.restricted != e.haveUsers() {
+		e.step("U%d: set aside (opened %s users), a new connection is opened", ui, map[bool]string{true: "with", false: "without"}[cn.restricted])
+		e.U[ui] = nil
+	}
 	if e.U[ui] == nil {
 		e.U[ui] = e.newConn()
+		e.step("U%d: connected (database has users: %v)", ui, e.U[ui].restricted)
 	}
 	return e.U[ui]
+}
+
+// probeUnrestricted: a connection opened while the database has no users is
+// not restricted: read-only requests must be answered.
+func (e *env41) probeUnrestricted(ui int, cn *conn41) {
+	type probe struct {
+		cmd  commands.Command
+		args []warg
+	}
+	probes := []probe{{commands.Size, nil}, {commands.Info, nil}, {commands.Final, nil}, {commands.Timestamp, nil},
+		{commands.Transactions, nil}, {commands.Libraries, nil}, {commands.Nonce, nil}, {commands.Cursors, nil},
+		{commands.GetOne, []warg{{K: 'y', I: '+'}, {K: 'i', I: 0}, {K: 'v', S: packedObj("t0 sort k")}}},
+		{commands.Check, []warg{{K: 'b', I: 0}}}}
+	p := gen.Pick(e.t, "probe", probes)
+	desc := fmt.Sprintf("U%d (no users when it connected): %v", ui, p.cmd)
+	e.step("%s", desc)
+	_, errstr := rawRequest(cn.c, cn.sess[0], p.cmd, p.args, false)
+	if errstr != "" {
+		e.fail("%s: refused on a connection opened while the database has no users: %s", desc, errstr)
+	}
+	e.rec.Label("unrestricted_probe_ok")
+	e.checkNoEffect(desc)
+}
+
+// usersEvent changes the users table at this point of the history:
+// created, populated, a user removed, emptied, dropped - directly on the
+// database or by the authenticated side over its connection.
+func (e *env41) usersEvent() {
+	t := e.t
+	var opts []string
+	switch {
+	case !e.usersTable:
+		opts = []string{"create", "create+insert", "create+insert"}
+	case len(e.users) == 0:
+		opts = []string{"insert", "insert", "insert", "drop"}
+	default:
+		opts = []string{"delete-one", "delete-all", "drop"}
+		if len(e.users) < 3 {
+			opts = append(opts, "insert", "insert")
+		}
+	}
+	what := gen.Pick(t, "users event", opts)
+	viaA := gen.Chance(t, "via A", 50)
+	had := e.haveUsers()
+	admin := func(stmt string) {
+		if viaA {
+			e.aCall(stmt, func() { e.A.hi[0].Admin(stmt, nil) })
+		} else {
+			e.srv.local.Admin(stmt, nil)
+		}
+	}
+	action := func(stmt string) {
+		var res string
+		if viaA {
+			e.aCall(stmt, func() {
+				tr := e.A.hi[0].Transaction(true)
+				tr.Action(e.th, stmt)
+				res = tr.Complete()
+			})
+		} else {
+			tr := e.srv.local.Transaction(true)
+			tr.Action(e.th, stmt)
+			res = tr.Complete()
+		}
+		if res != "" {
+			e.fail("users event %q: commit failed: %s", stmt, res)
+		}
+	}
+	insert := func() {
+		name := ""
+		for _, n := range []string{"joe", "sue", "admin"} {
+			used := false
+			for _, u := range e.users {
+				used = used || u.Name == n
+			}
+			if !used {
+				name = n
+				break
+			}
+		}
+		u := user41{Name: name, Hash: rapid.StringMatching(`[a-f0-9]{8,20}`).Draw(t, "passhash")}
+		action(fmt.Sprintf("insert { user: %q, passhash: %q } into users", u.Name, u.Hash))
+		e.users = append(e.users, u)
+	}
+	switch what {
+	case "create", "create+insert":
+		admin("create users (user, passhash) key(user)")
+		e.usersTable = true
+		if what == "create+insert" {
+			insert()
+		}
+	case "insert":
+		insert()
+	case "delete-one":
+		i := gen.Uniform(t, "which user", len(e.users))
+		action(fmt.Sprintf("delete users where user = %q", e.users[i].Name))
+		e.users = append(e.users[:i:i], e.users[i+1:]...)
+	case "delete-all":
+		action("delete users")
+		e.users = nil
+	case "drop":
+		admin("drop users")
+		e.usersTable, e.users = false, nil
+	}
+	if !had && e.haveUsers() && len(e.all) > 0 {
+		e.usersAppeared = true
+	}
+	via := map[bool]string{true: "over A's connection", false: "directly"}[viaA]
+	e.step("users table: %s %s (database has users: %v)", what, via, e.haveUsers())
+	e.rec.Label("users_event_" + what)
+	e.rec.LabelIf(!had && e.haveUsers(), "users_appeared")
+	e.rec.LabelIf(had && !e.haveUsers(), "users_disappeared")
+	e.refreshFingerprint()
 }
 
 func (cn *conn41) addSession() int {
@@ -459,7 +605,7 @@ func (e *env41) genStr(label string, cmd commands.Command) string {
 		return gen.Pick(t, label, specific)
 	}
 	pool := append([]string(nil), strPool...)
-	pool = append(pool, e.aSession, e.users[0].Name)
+	pool = append(pool, e.aSession, "joe")
 	pool = append(pool, e.sortedTokens()...)
 	switch gen.Uniform(t, label+"cls", 6) {
 	case 0:
@@ -575,6 +721,10 @@ func wellFormed(cmd commands.Command, args []warg) bool {
 func (e *env41) uRequest(ui int) {
 	t := e.t
 	cn := e.unauth(ui)
+	if !cn.restricted {
+		e.probeUnrestricted(ui, cn)
+		return
+	}
 	code := gen.Uniform(t, "cmd", nCmds+2)
 	if code >= nCmds {
 		code = gen.Pick(t, "badcmd", []int{nCmds, nCmds + 1, 0x7f, 0xff})
@@ -650,6 +800,7 @@ func (e *env41) uRequest(ui int) {
 	}
 	e.rec.Label("u_" + name + "_" + outcome)
 	e.rec.Label(fmt.Sprintf("u_variant%d_%s", variant, outcome))
+	e.rec.LabelIf(cn.late && code < nCmds && !allowed41[cmd], "restricted_request_on_late_connection")
 	if errstr != "" && errstr != errLost && len(errstr) < 200 {
 		e.obtained = appendObtained(e.obtained, errstr)
 	}
@@ -825,6 +976,10 @@ func (e *env41) judgeAllowed(cn *conn41, cmd commands.Command, args []warg, wf b
 func (e *env41) uAuth(ui int) {
 	t := e.t
 	cn := e.unauth(ui)
+	if !cn.restricted {
+		e.probeUnrestricted(ui, cn)
+		return
+	}
 	u := gen.Pick(t, "user", e.users)
 	if gen.Chance(t, "fresh nonce first", 50) {
 		desc := fmt.Sprintf("U%d: Nonce", ui)
@@ -855,7 +1010,11 @@ func (e *env41) uAuth(ui int) {
 		}
 		s = u.Name + "\x00" + sha1of(old+u.Hash)
 	case "foreign-nonce":
-		s = u.Name + "\x00" + sha1of(gen.Pick(t, "foreign", e.otherNonces)+u.Hash)
+		foreign := "abcdefgh"
+		if len(e.otherNonces) > 0 {
+			foreign = gen.Pick(t, "foreign", e.otherNonces)
+		}
+		s = u.Name + "\x00" + sha1of(foreign+u.Hash)
 	case "wrong-hash":
 		s = u.Name + "\x00" + sha1of(anyNonce+u.Hash+"x")
 		fromObtained = anyNonce != ""
@@ -866,7 +1025,10 @@ func (e *env41) uAuth(ui int) {
 		s = "nobody\x00" + sha1of(anyNonce+u.Hash)
 		fromObtained = anyNonce != ""
 	case "replay":
-		s = gen.Pick(t, "replayed", e.okAuths)
+		s = u.Name + "\x00" + sha1of("abcdefgh"+u.Hash)
+		if len(e.okAuths) > 0 {
+			s = gen.Pick(t, "replayed", e.okAuths)
+		}
 	case "token":
 		s = "0123456789abcdef"
 		toks := e.sortedTokens()
